@@ -31,7 +31,11 @@ impl Story {
         let path = Path::new_with_components_string(Some(path_string));
 
         // Expected to be global story, knot, or stitch
-        let mut flow_container = self.content_at_path(&path).container().unwrap();
+        let mut flow_container = self.content_at_path(&path).container().ok_or_else(|| {
+            StoryError::BadArgument(format!(
+                "The content at path '{path_string}' is not a knot or stitch, so it has no tags of its own"
+            ))
+        })?;
 
         while let Some(first_content) = flow_container.content.first() {
             if let Ok(container) = first_content.clone().into_any().downcast::<Container>() {
